@@ -310,6 +310,9 @@ func lexStmt(l *lexer) stateFn {
 // lexString scans a run of non-separator characters
 func lexString(l *lexer) stateFn {
 	for !isTerminator(l.peek()) {
+		if l.peek() == eof {
+			break
+		}
 		l.next()
 	}
 	l.emit(itemString)
